@@ -131,6 +131,9 @@ fn routing_action() -> BoxedStrategy<Act> {
             Just(vec![FEl::Lit("x".into()), FEl::E(Esc::Null)]),
             Just(vec![]),
             Just(vec![FEl::E(Esc::Newline), FEl::Lit("y".into())]),
+            Just(vec![FEl::F(Fld::NameNoStart), FEl::E(Esc::Ascii(0o1012))]),
+            Just(vec![FEl::F(Fld::NameNoStart), FEl::E(Esc::Ascii(0o412))]),
+            Just(vec![FEl::Lit("constant line".into()), FEl::E(Esc::Newline)]),
         ]
     };
     prop_oneof![
@@ -186,6 +189,27 @@ pub fn run(ctx: &Ctx) -> Report {
     });
     total.merge(ch);
     total.exhaustive_parts.push("chains of up to 300 (quick: 11 sizes, thorough: every size 1..310) distinct file destinations with all three terminators".into());
+    // printers before and after 127 distinct matchers (identifier numbers 256 apart), and file
+    // names only a hand-built tree can carry (empty)
+    let mut st0 = Stats::new();
+    for n in [100usize, 126, 127, 128, 129, 254, 255, 256] {
+        let mut e = E::and(E::A(Act::FPrint("first.out".into())), E::A(Act::FPrint("second.out".into())));
+        for i in 0..n {
+            e = E::or(E::and(e, E::T(Tst::False)), E::T(Tst::Name(format!("pattern-{i}.*"))));
+        }
+        e = E::and(e, E::A(Act::FPrint("last.out".into())));
+        e = E::and(e, E::A(Act::Print0));
+        let v = judge(&e);
+        st0.record(&v, stable_hash(&e), true, || json!({"kind": "sandwich", "matchers_between_printers": n}));
+    }
+    for t in [
+        E::and(E::and(E::A(Act::Print), E::A(Act::FPrint(String::new()))), E::and(E::A(Act::Print0), E::A(Act::FPrint0(String::new())))),
+        E::and(E::A(Act::FPrintf(String::new(), vec![FEl::F(Fld::NameNoStart)])), E::A(Act::Printf(vec![FEl::F(Fld::NameNoStart)]))),
+    ] {
+        let v = judge(&t);
+        st0.record(&v, stable_hash(&t), true, || case_json(&t));
+    }
+    total.merge(st0);
     // long chains and deep nesting whose output is all plain: the mode must stay plain
     let mut st = Stats::new();
     for n in [10usize, 63, 64, 65, 66, 100, 129, 300] {
